@@ -11,7 +11,7 @@
      plain                the texts of the references contain no '$' (flat theorem only)
      anchored             the token list cannot shrink to one bare reference
      inert                a value without '$' and without expandedValue nodes *)
-From Verif Require Import Common.Base C12.Model C12.Proofs1 C12.Proofs2 C12.Proofs3 C12.Proofs4 C12.Proofs5 C12.Proofs6 C12.Proofs7.
+From Verif Require Import Common.Base C12.Model C12.Proofs1 C12.Proofs2 C12.Proofs3 C12.Proofs4 C12.Proofs5 C12.Proofs6 C12.Proofs7 C12.Proofs8 C12.Proofs9 C12.Tie Generated.C12Tables.
 From Coq Require Import Ascii.
 
 (* ================= clause 1: recursive right-biased merge ================= *)
@@ -132,9 +132,11 @@ Print Assumptions expansion_refines_tokens.
    token string not ending in a lone '$', and no reference sits deeper than d (so the reachable reference
    graph is acyclic); [cost d ts] = number of reference nodes of the full expansion tree (the model's measure:
    each round of expandValueRecursively removes at least one); [mean d ts] = the recursive token meaning
-   (meaning of a reference = meaning of its provider's text). *)
+   (meaning of a reference = meaning of its provider's text); [nanchored d ts]: ts has a non-reference token or
+   at least two tokens whose final meaning is not empty, so it never shrinks to ONE bare reference (which would
+   make the value typed) — inputs made of references only are covered. *)
 Theorem expansion_refines_tokens_nested : forall def retrieve txt d ts,
-  wf def retrieve (nval txt) ts -> good def retrieve txt d ts -> has_text ts = true ->
+  wf def retrieve (nval txt) ts -> good def retrieve txt d ts -> nanchored txt d ts ->
   cost txt d ts < 1000 ->
   resolve_string def retrieve (flatten ts) = Ok (CStr (mean txt d ts)).
 Proof. exact nested_main. Qed.
@@ -142,11 +144,74 @@ Print Assumptions expansion_refines_tokens_nested.
 
 (* the measure bounds the rounds: fuel cost+1 is enough, whatever the 1000 of the code *)
 Theorem nested_rounds_bounded_by_cost : forall def retrieve txt d ts,
-  wf def retrieve (nval txt) ts -> good def retrieve txt d ts -> has_text ts = true ->
+  wf def retrieve (nval txt) ts -> good def retrieve txt d ts -> nanchored txt d ts ->
   exists s, expand_rec def retrieve (S (cost txt d ts)) (CStr (flatten ts)) = Ok (CStr s) /\
             unescape s = mean txt d ts.
 Proof. exact nested_rounds_within_cost. Qed.
 Print Assumptions nested_rounds_bounded_by_cost.
+
+(* ---- values with structure (lists, maps, expandedValue): generic, no assumption on the members ---------- *)
+
+(* a round that reports "unchanged" has produced a fixpoint of expandValue *)
+Theorem unchanged_round_is_fixpoint : forall def retrieve v v',
+  expand_value def retrieve v = Ok (v', false) -> expand_value def retrieve v' = Ok (v', false).
+Proof. exact stable. Qed.
+Print Assumptions unchanged_round_is_fixpoint.
+
+(* a list resolves member by member: each member ends where it would end on its own (they only share the
+   round counter) *)
+Theorem list_value_memberwise : forall def retrieve f xs ys,
+  Forall2 (fun x y => expand_rec def retrieve (S f) x = Ok y) xs ys ->
+  expand_rec def retrieve (S f) (CList xs) = Ok (CList ys).
+Proof. exact list_memberwise. Qed.
+Print Assumptions list_value_memberwise.
+
+Theorem map_value_memberwise : forall def retrieve f m m',
+  Forall2 (entry_ok def retrieve (S f)) m m' ->
+  expand_rec def retrieve (S f) (CMap m) = Ok (CMap m').
+Proof. exact map_memberwise. Qed.
+Print Assumptions map_value_memberwise.
+
+(* the typed value and the original text of an expandedValue resolve independently *)
+Theorem expanded_value_halves_independent : forall def retrieve f x o y o',
+  structured x = true -> expand_rec def retrieve (S f) x = Ok y -> str_rec def retrieve (S f) o = Some o' ->
+  expand_rec def retrieve (S f) (CExp x o) = Ok (CExp y o').
+Proof. exact exp_parallel. Qed.
+Print Assumptions expanded_value_halves_independent.
+
+Theorem whole_value_structured : forall def retrieve n ret o y o',
+  name_ok n = true -> ref_ok def n = true ->
+  expand_uri def retrieve (ref_text n) = Ok ret -> as_string ret = Some o ->
+  structured (r_raw ret) = true ->
+  expand_rec def retrieve 999 (r_raw ret) = Ok y -> str_rec def retrieve 999 o = Some o' ->
+  resolve_string def retrieve (ref_text n) = Ok (CExp (escape_dollars y) (unescape o')).
+Proof. exact Proofs8.whole_value_structured. Qed.
+Print Assumptions whole_value_structured.
+
+(* CLOSED FORM for a provider value that is a list / map of strings with references inside (nested allowed):
+   the typed value is the member-wise token meaning, the original text is the meaning of the text
+   ([tok_ok d ts] = the hypotheses of the nested theorem with at most 998 reference nodes) *)
+Theorem whole_value_list_of_token_strings : forall def retrieve txt n ret d tss tso,
+  name_ok n = true -> ref_ok def n = true ->
+  expand_uri def retrieve (ref_text n) = Ok ret ->
+  r_raw ret = CList (map (fun ts => CStr (flatten ts)) tss) ->
+  as_string ret = Some (flatten tso) ->
+  Forall (tok_ok def retrieve txt d) tss -> tok_ok def retrieve txt d tso ->
+  resolve_string def retrieve (ref_text n)
+  = Ok (CExp (CList (map (fun ts => CStr (mean txt d ts)) tss)) (mean txt d tso)).
+Proof. exact list_of_token_strings. Qed.
+Print Assumptions whole_value_list_of_token_strings.
+
+Theorem whole_value_map_of_token_strings : forall def retrieve txt n ret d kvs tso,
+  name_ok n = true -> ref_ok def n = true ->
+  expand_uri def retrieve (ref_text n) = Ok ret ->
+  r_raw ret = CMap (map (fun kv => (fst kv, CStr (flatten (snd kv)))) kvs) ->
+  as_string ret = Some (flatten tso) ->
+  Forall (fun kv : str * list tok => tok_ok def retrieve txt d (snd kv)) kvs -> tok_ok def retrieve txt d tso ->
+  resolve_string def retrieve (ref_text n)
+  = Ok (CExp (CMap (map (fun kv => (fst kv, CStr (mean txt d (snd kv)))) kvs)) (mean txt d tso)).
+Proof. exact map_of_token_strings. Qed.
+Print Assumptions whole_value_map_of_token_strings.
 
 (* without the bound the statement is false: 1000 distinct resolvable references are refused *)
 Theorem expansion_refines_tokens_unbounded_refuted : exists def retrieve val ts,
@@ -268,3 +333,55 @@ Theorem any_reference_error_is_reported : forall def retrieve s uri e,
   resolve_string def retrieve s = Err e.
 Proof. exact uri_error_refused. Qed.
 Print Assumptions any_reference_error_is_reported.
+
+(* ================= tie to the CURRENT source: the model equals tables dumped by running the code ================= *)
+(* coq/Generated/C12Tables.v is rewritten from /repo on every run (harness/C12/dump_test.go); proofs in Tie.v *)
+
+Theorem scheme_first_class_is_code :
+  map (fun n => is_alpha (ascii_of_nat n)) (seq 0 256) = go_scheme_first.
+Proof. exact tie_scheme_first. Qed.
+Print Assumptions scheme_first_class_is_code.
+
+Theorem scheme_rest_class_is_code :
+  map (fun n => is_scheme_char (ascii_of_nat n)) (seq 0 256) = go_scheme_rest.
+Proof. exact tie_scheme_rest. Qed.
+Print Assumptions scheme_rest_class_is_code.
+
+Theorem scheme_pattern_shape_is_code :
+  forallb (fun p : String.string * bool => Bool.eqb (valid_scheme (t2l (fst p))) (snd p)) go_scheme_small = true.
+Proof. exact tie_scheme_small. Qed.
+Print Assumptions scheme_pattern_shape_is_code.
+
+Theorem new_location_is_code :
+  forallb (fun p => loc_eqb (new_location (t2l (fst p))) (snd p)) go_new_location = true.
+Proof. exact tie_new_location. Qed.
+Print Assumptions new_location_is_code.
+
+Theorem find_uri_is_code :
+  forallb (fun p : String.string * String.string * String.string =>
+             let '(d, i, r) := p in uri_eqb (find_uri (t2l d) (t2l i)) r) go_find_uri = true.
+Proof. exact tie_find_uri. Qed.
+Print Assumptions find_uri_is_code.
+
+Theorem replace_unescaped_is_code :
+  forallb (fun p : String.string * String.string =>
+             str_eqb (replace_unescaped (t2l (fst p)) (t2l go_replace_uri) (t2l go_replace_repl)) (t2l (snd p)))
+          go_replace = true.
+Proof. exact tie_replace_unescaped. Qed.
+Print Assumptions replace_unescaped_is_code.
+
+Theorem unescape_is_code :
+  forallb (fun p : String.string * String.string => str_eqb (unescape (t2l (fst p))) (t2l (snd p))) go_unescape = true.
+Proof. exact tie_unescape. Qed.
+Print Assumptions unescape_is_code.
+
+Theorem max_rounds_is_code : max_rounds = go_max_rounds.
+Proof. exact tie_max_rounds. Qed.
+Print Assumptions max_rounds_is_code.
+
+Theorem tables_are_populated :
+  N.of_nat (length go_scheme_small) = 1555%N /\ N.of_nat (length go_new_location) = 1365%N /\
+  (3000 <=? N.of_nat (length go_find_uri))%N = true /\
+  N.of_nat (length go_replace) = 5461%N /\ N.of_nat (length go_unescape) = 1023%N.
+Proof. exact tie_tables_populated. Qed.
+Print Assumptions tables_are_populated.
